@@ -64,6 +64,11 @@ def generate(tier, rng):
             items.append((auth_line(realm, users, b"Basic " + base64.b64encode(u + p)), ch))
             items.append((auth_line(realm, users, b"Basic " + base64.b64encode(p + b":" + u)), ch if p + b":" + u != u + b":" + p else "chal=-"))
             items.append((auth_line(realm, users, b"Digest " + good), ch))
+            # empty passwords / empty or unknown user names: accepted only when exactly that pair is registered
+            for (uu, pp) in ((u, b""), (b"", p), (b"", b""), (u + b"x", b""), (b"nobody", b""), (b"nobody", p)):
+                ok = any(uu == ru and pp == rp for (ru, rp) in users)
+                items.append((auth_line(realm, users, b"Basic " + base64.b64encode(uu + b":" + pp)), "chal=-" if ok else ch))
+                items.append((auth_line(realm, users, b"Basic " + base64.b64encode(uu + b":" + pp).rstrip(b"=")), "chal=-" if ok else ch))
     nrand = 3000 if tier == "quick" else 20000
     for _ in range(nrand):
         realm, users = rng.choice(TABLES)
